@@ -294,17 +294,8 @@ func c16cd(c *Ctx, v *variants.Variant) {
 	if fd != nil {
 		ast.Inspect(fd.Body, func(n ast.Node) bool {
 			if ds, ok := n.(*ast.DeferStmt); ok {
-				if fl, ok := ds.Call.Fun.(*ast.FuncLit); ok {
-					t := ""
-					ast.Inspect(fl, func(m ast.Node) bool {
-						if ce, ok := m.(*ast.CallExpr); ok {
-							t += nospace(ce) + ";"
-						}
-						return true
-					})
-					if okSem, _ := recoverHandlerSemantics(c, v, fd, fl); okSem && strings.Contains(t, "recover()") {
-						okH = true
-					}
+				if okSem, _ := recoverHandlerSemantics(c, v, fd, ds); okSem {
+					okH = true
 				}
 			}
 			return true
